@@ -89,4 +89,20 @@ IdleSum(R, s, cat, thr) ==
     LET ks == { k \in IdleKernels(R, s) : Pred(R, k) # {} /\ GapCat(R, k, CHOOSE p \in Pred(R, k) : TRUE, thr) = cat }
     IN SumSet(ks, [k \in ks |-> k.ts - End(CHOOSE p \in Pred(R, k) : TRUE)])
 StreamSpanMinusBusy(R, s) == Span(Ivs(IdleKernels(R, s))) - Measure(Ivs(IdleKernels(R, s)))
+(***************************************************************************)
+(* Beyond the listed properties: time spent at or above a queue length m,  *)
+(* per stream, read off the queue-length series S (rows [ts, key, val] in  *)
+(* series order): every point but a stream's last holds until the stream's *)
+(* next point.                                                             *)
+(***************************************************************************)
+KeyIdx(S, k) == { j \in DOMAIN S : S[j].key = k }
+NextOfKey(S, j) == LET later == { n \in KeyIdx(S, S[j].key) : n > j } IN
+                   IF later = {} THEN 0 ELSE CHOOSE n \in later : \A n2 \in later : n <= n2
+RECURSIVE SumHeld(_, _, _)
+SumHeld(S, J, acc) == IF J = {} THEN acc
+                      ELSE LET j == CHOOSE x \in J : TRUE IN
+                           SumHeld(S, J \ {j}, acc + (IF NextOfKey(S, j) = 0 THEN 0 ELSE S[NextOfKey(S, j)].ts - S[j].ts))
+BlockedDur(S, k, m) == SumHeld(S, { j \in KeyIdx(S, k) : S[j].val >= m }, 0)
+BlockedKeys(S, m) == { S[j].key : j \in { n \in DOMAIN S : S[n].val >= m } }
+BlockedRows(S, m) == { [m |-> m, stream |-> k, dur |-> BlockedDur(S, k, m)] : k \in BlockedKeys(S, m) }
 =============================================================================
